@@ -40,6 +40,9 @@ struct Case {
     /// extra length of the first fragment (records far larger than any internal buffer)
     #[serde(default)]
     pad: usize,
+    /// run the child built against anstream's `test` feature (capture-aware print macros)
+    #[serde(default)]
+    test_feature: bool,
 }
 
 /// the padding of fragment 0: one letter per thread, so that a foreign piece inside it is visible
@@ -314,7 +317,15 @@ struct ChildResult {
 }
 
 fn run_case(case: &Case) -> Result<ChildResult, String> {
-    let exe = std::env::current_exe().map_err(|e| format!("current_exe: {e}"))?;
+    let exe = if case.test_feature {
+        let p = rt::verif_dir().join("target/release/c19t");
+        if !p.exists() {
+            return Err("INFRA target/release/c19t is missing (scripts/pre-c19.sh)".into());
+        }
+        p
+    } else {
+        std::env::current_exe().map_err(|e| format!("current_exe: {e}"))?
+    };
     let mut cmd = std::process::Command::new(exe);
     cmd.arg("--child").arg(serde_json::to_string(case).unwrap());
     for k in ["NO_COLOR", "CLICOLOR_FORCE", "CLICOLOR", "CI", "TERM"] {
@@ -370,6 +381,7 @@ fn arb_case(gated: bool) -> impl Strategy<Value = Case> {
             gated: if gated { 5 } else { 0 },
             gate_pos,
             pad: 0,
+            test_feature: false,
         })
 }
 
@@ -383,7 +395,7 @@ fn arb_large_case() -> impl Strategy<Value = Case> {
         1usize..=3,
         prop::sample::select(vec![65_400usize, 65_536, 66_000, 131_072, 140_000, 200_000]),
     )
-        .prop_map(|(strip, stderr, api, threads, fragments, pad)| Case { strip, stderr, api, threads, prints: 10, fragments, gated: 0, gate_pos: 0, pad })
+        .prop_map(|(strip, stderr, api, threads, fragments, pad)| Case { strip, stderr, api, threads, prints: 10, fragments, gated: 0, gate_pos: 0, pad, test_feature: false })
 }
 
 // ---- register
@@ -563,11 +575,26 @@ fn run(args: &Args, rep: &mut Report) {
     // gated cases
     let gated_cases = sample_values(rt::derive_seed(args.seed, "gated", 0), tier.pick(150, 1500), &arb_case(true));
     let stress_cases = sample_values(rt::derive_seed(args.seed, "stress", 0), tier.pick(48, 400), &arb_case(false));
+    // the print macros of a build with anstream's `test` feature (their capture-aware branch)
+    let tf_cases: Vec<Case> = sample_values(rt::derive_seed(args.seed, "test-feature", 0), tier.pick(24, 200), &(arb_case(false), any::<bool>(), prop::sample::select(vec![0usize, 0, 70_000])))
+        .into_iter()
+        .map(|(mut c, ln, pad)| {
+            c.api = if ln { Api::Println } else { Api::Print };
+            c.test_feature = true;
+            c.pad = pad;
+            if pad > 0 {
+                c.prints = 10;
+                c.threads = c.threads.min(6);
+            }
+            c
+        })
+        .collect();
     let large_cases = sample_values(rt::derive_seed(args.seed, "large", 0), tier.pick(24, 240), &arb_large_case());
     for (name, cases, bound) in [
         ("gated-prints", gated_cases, "generated cases with 5 gated prints each (2..4 threads + contender)"),
         ("free-running-stress", stress_cases, "generated cases with 2..16 threads x 400 prints, no gate"),
         ("large-records", large_cases, "generated cases with 2..6 threads x 10 prints of 64..200 KiB each (one-letter-per-thread padding), all APIs, no gate"),
+        ("test-feature-build", tf_cases, "print!/println!/eprint!/eprintln! in a child built against anstream with its `test` feature (capture-aware branch of the macros): 2..16 threads x 400 prints, some with 70 KB records, no gate"),
     ] {
         // children are run a few at a time: the gate needs idle cores to be meaningful
         let par_children = 4;
@@ -582,7 +609,7 @@ fn run(args: &Args, rep: &mut Report) {
                 match run_case(case) {
                     Ok(r) => {
                         acc.evals += r.records;
-                        acc.nontrivial_counted += if case.pad > 0 { r.records } else { r.started_during_call };
+                        acc.nontrivial_counted += if case.pad > 0 || case.test_feature { r.records } else { r.started_during_call };
                         let _ = r.completed_during_call;
                         acc.sample(|| serde_json::to_value(case).unwrap());
                     }
@@ -627,7 +654,7 @@ fn replay(sub: &str, case: &Value) -> Result<(), String> {
     Ok(())
 }
 
-fn main() {
+pub fn main() {
     let argv: Vec<String> = std::env::args().collect();
     if argv.get(1).map(|s| s.as_str()) == Some("--child") {
         let case: Case = serde_json::from_str(&argv[2]).expect("case");
